@@ -8,7 +8,7 @@
    partial). *)
 From Coq Require Import List Arith ZArith Bool Lia.
 Import ListNotations.
-From GG Require Import Text Json Text_proofs Sdl Sdl_proofs Json_proofs Json_value Tokens_proofs Values_scalar.
+From GG Require Import Text Json Text_proofs Sdl Sdl_proofs Json_proofs Json_value Tokens_proofs Values_scalar Values_list.
 
 (* names (symbols, variable names, unquoted keys) are exactly the non-empty words over [A-Za-z0-9_];
    number tokens are words over [0-9+-.eE]; the string delimiters and NUL are in no class; comma is
@@ -164,6 +164,31 @@ Theorem C18_empty_object_round_trip :
     exists s', read_value float_ok fuel d s = ROk (PMap []) s' /\ ready s' k.
 Proof. exact read_value_empty_map_written. Qed.
 Print Assumptions C18_empty_object_round_trip.
+
+(* Composition through the list loop of readValue: a bracketed text e1,e2,...,en] (n >= 1) whose elements
+   each read back - for every sufficient fuel, followed by a comma or the closing bracket - reads back
+   as the list of their values; names are such elements, and so is such a list itself one level
+   further in (until the nesting bound): comma-separated lists of names nest to any depth below it. *)
+Theorem C18_list_round_trip :
+  forall float_ok m d e v es vs s k F,
+    elem_reads float_ok m (S d) e v -> Forall2 (elem_reads float_ok m (S d)) es vs ->
+    ready s (91 :: e ++ tail_text es ++ k) -> m + length es + 3 < F -> S d <= max_nesting ->
+    exists s', read_value float_ok F d s = ROk (PList (v :: vs)) s' /\ ready s' k.
+Proof. exact read_value_list_written. Qed.
+Print Assumptions C18_list_round_trip.
+
+Theorem C18_names_are_list_elements :
+  forall float_ok a w d, name_start a = true -> Forall (fun b => is_token b = true) w ->
+    elem_reads float_ok (length w + 2) d (a :: w) (keyword_value (a :: w)).
+Proof. exact name_elem_reads. Qed.
+Print Assumptions C18_names_are_list_elements.
+
+Theorem C18_lists_are_list_elements :
+  forall float_ok m d e v es vs,
+    elem_reads float_ok m (S d) e v -> Forall2 (elem_reads float_ok m (S d)) es vs -> S d <= max_nesting ->
+    elem_reads float_ok (m + length es + 4) d (91 :: e ++ tail_text es) (PList (v :: vs)).
+Proof. exact list_elem_reads. Qed.
+Print Assumptions C18_lists_are_list_elements.
 
 Example C18_scalar_round_trip_instances :
   (* RED_1] is the symbol, null, is null, -12] is the integer: the theorems' conclusions computed *)
